@@ -112,6 +112,23 @@ func init() {
 							step, log[len(log)-1], i, l.origin, l.model, got, strings.Join(log, " ; ")).With("origin", l.origin)
 					}
 				}
+				// repeating the call on the unchanged set yields an equal result:
+				// the same paths in the same order (documented: the order is
+				// undefined but consistent)
+				if len(setModel) > 1 {
+					first := set.List()
+					for rep := 0; rep < 6; rep++ {
+						again := set.List()
+						if len(again) != len(first) {
+							return facet.Failf("pathset-list-impure", "after step %d: two calls of PathSet.List on the unchanged set returned %d and %d paths", step, len(first), len(again))
+						}
+						for k := range first {
+							if !eqStrings(pathStrings(first[k]), pathStrings(again[k])) {
+								return facet.Failf("pathset-list-impure", "after step %d (%s): two calls of PathSet.List on the unchanged set returned the paths in different orders (position %d: %v then %v)", step, log[len(log)-1], k, pathStrings(first[k]), pathStrings(again[k]))
+							}
+						}
+					}
+				}
 				for _, m := range setModel {
 					found := false
 					for _, p := range set.List() {
